@@ -40,7 +40,7 @@ func checkRequireJSON(req *protocol.Request, tagInfo TagInfo) bool {
 		return false
 	}
 	if !jsonKeyExists(req.Body(), tagInfo.JSONName) {
-		idx := strings.LastIndex(tagInfo.JSONName, ".")
+		idx := lastJSONNameDot(tagInfo.JSONName)
 		if idx > 0 {
 			// There should be a superior if it is empty, it will report 'true' for required
 			if !jsonKeyExists(req.Body(), tagInfo.JSONName[:idx]) {
@@ -61,7 +61,7 @@ func jsonKeyExists(body []byte, name string) bool {
 		return true
 	}
 	node, _ = sonic.Get(body)
-	for _, seg := range strings.Split(name, ".") {
+	for _, seg := range splitJSONName(name) {
 		next := node.Get(seg)
 		if !next.Exists() {
 			next = nil
@@ -84,7 +84,7 @@ func jsonKeyExists(body []byte, name string) bool {
 }
 
 func stringSliceForInterface(s string) (ret []interface{}) {
-	x := strings.Split(s, ".")
+	x := splitJSONName(s)
 	for _, val := range x {
 		ret = append(ret, val)
 	}
